@@ -24,6 +24,9 @@ import gen_tie
 rg = gen_tie.regen()   # decision functions regenerated from the source (DESIGN 11.7)
 if not rg["ok"]:
     print("\n".join(rg["errors"]))   # reported as broken obligations by the checks wired to them
+rg = gen_tie.regen("glue")   # fragments of the glue code regenerated from the source (DESIGN 11.7, third round)
+if not rg["ok"]:
+    print("\n".join(rg["errors"]))
 PY
 ( cd coq && coq_makefile -f _CoqProject -o Makefile $(find . -name '*.v' -not -path './gen/*' | sed 's|^\./||' | sort) $(ls gen/Gen*.v 2>/dev/null) >/dev/null && timeout 3000 make -j16 ) || echo "coq build incomplete (reported per property by the checks)"
 python3 - <<'PY'
